@@ -130,13 +130,15 @@ CLAIMS = {
             'configuration in which kill() keeps answering with a dead future is unreachable; a kill armed during a step survives every later request and '
             'every event other than the stepping task\'s own callback (Life/LifeArmed.v: pause, play, resume, further kills, fail, listeners reacting to them, '
             'cancellation, late callbacks, completions leave _killing at the same armed, pending kill action); a kill() between steps of any reachable live '
-            'process is carried out at once (Life/LifeKill.v); by symbolic execution '
+            'process is carried out at once (Life/LifeKill.v); on every reachable world on which a kill is pending the tail of step() carries it out however '
+            'execute() came back - next state, interruption or exception - and leaves the process terminated, KILLED or EXCEPTED (Life/LifeCarry.v, with any '
+            'injected fault); by symbolic execution '
             'of the model on every quiet world: between steps the process is KILLED when kill() returns True, the text is recorded, the future raises '
             'KilledError with it and the process is closed; while a step is in flight a pending kill action is armed as the interrupt action and returned; a '
             'killed (terminated) process is never revived (C01). The races named in the property (kill/pause/play inside one step, pause then kill in a wait, '
             'future cancellation) are evaluated on the model. Tied to the code by ~2.6k real runs per quick run: every sequence of <= 3 requests at every '
             'callback boundary, inside steps and from listeners, each closed by a probing kill.',
-            'DESIGN.md section 4 C04', COMMON_NOTE + 'PARTIAL: that the stepping task, when it runs again, carries the armed kill out (or ends EXCEPTED) is proved per operation on quiet worlds (finish_step with an armed action), not chained over all schedules. One known finding (KNOWN_FINDINGS.txt): D3b future cancelled while a synchronous chain completes (D8, kill issued by a listener during the end-of-step transition, was repaired: cc71384).',
+            'DESIGN.md section 4 C04', COMMON_NOTE + 'The chain "armed -> survives every other event (LifeArmed) -> the suspended stepping task is woken (LifeWake) -> the end of the step carries it out on every reachable world (LifeCarry)" is proved link by link over all runs; what is not a single theorem is their composition into "every run in which kill() was requested ends terminated" (a liveness statement: a step blocked in its own await of a future nobody completes never ends), and the LifeCarry/LifeEsc links exclude an outside cancellation of the future. One known finding (KNOWN_FINDINGS.txt): D3b future cancelled while a synchronous chain completes (D8, kill issued by a listener during the end-of-step transition, was repaired: cc71384).',
             'Coq proof: never-raises invariant over all runs (wp calculus) + symbolic execution of kill on quiet worlds + vm_compute correspondence'),
     'C05': ('Machine-checked proof (Coq) over M1, for EVERY run (any program, listener scripts, schedule of pause/play/resume/kill/fail/late callbacks/ticks; no '
             'bound): every step function or continuation that starts and every sample taken by code inside a step (also after an await) sees the process not '
